@@ -344,28 +344,27 @@ func ruleHeaderTypestate(c *Ctx, rule string) {
 			c.check(rule, "setHeader:accumulate-only-if-unsent", p.Facts(i).False(flag), "headers are accumulated only while unsent (SetHeader after sending fails)", p.ipos(i))
 		}
 	})
-	// same typestate on the unary collector
-	shl := p.MustFn("server.unaryServerTransportStream.setHeaderLocked")
-	allInstrs(shl, func(i ssa.Instruction) {
-		if s, ok := i.(*ssa.Store); ok && p.locPath(s.Addr) == "p:sts.headers" {
-			if _, isCall := s.Val.(*ssa.Call); isCall {
-				c.check(rule, "unary.setHeaderLocked:accumulate-only-if-unsent", p.Facts(i).False("p:sts.headersSent"), "unary collector accepts headers only while unsent", p.ipos(i))
-			}
+	// same typestate on the unary collector (wherever the accumulation lives)
+	nu := 0
+	for _, st := range p.FieldStores(fieldKey{"server.unaryServerTransportStream", "headers"}) {
+		if _, isCall := st.Val.(*ssa.Call); isCall {
+			nu++
+			c.check(rule, "unary.collector:accumulate-only-if-unsent", p.Facts(st).False("p:sts.headersSent"), "unary collector accepts headers only while unsent: "+p.Facts(st).String(), p.ipos(st))
 		}
-	})
+	}
+	c.floor(rule, "header accumulations of the unary collector", nu, 1)
 }
 
 // ---- C04.5: accumulation ----
 func ruleAccumulation(c *Ctx, rule string) {
 	p := c.p
 	e := p.Origins()
-	chk := func(fk, loc, name string) {
-		f := p.MustFn(fk)
+	chk := func(fk fieldKey, loc, name string) {
 		n := 0
-		allInstrs(f, func(i ssa.Instruction) {
-			s, ok := i.(*ssa.Store)
-			if !ok || p.locPath(s.Addr) != loc {
-				return
+		for _, s := range p.FieldStores(fk) {
+			i := ssa.Instruction(s)
+			if p.isInitPhase(s.Addr.(*ssa.FieldAddr)) {
+				continue
 			}
 			n++
 			cl, isCall := s.Val.(*ssa.Call)
@@ -377,23 +376,20 @@ func ruleAccumulation(c *Ctx, rule string) {
 				if calleeName(&cl.Call) == "google.golang.org/grpc/metadata.Join" {
 					o := e.Of(cl)
 					okA = o.ContainsMatch("call(*metadata.Join,list(_,_))") && joinsExisting(p, cl, loc)
-					if _, isMk := s.Val.(*ssa.MakeMap); isMk {
-						okA = true
-					}
 				}
 			}
 			if _, isMk := s.Val.(*ssa.MakeMap); isMk {
 				// initialisation of a nil map under fact isnil
 				okA = p.Facts(i).IsNil(loc)
 			}
-			c.check(rule, name, okA, "the accumulated list/map is extended (append/Join with the existing value), never replaced", p.ipos(i))
-		})
-		c.floor(rule, "stores to "+loc+" in "+fk, n, 1)
+			c.check(rule, name+":"+p.cname(s.Parent()), okA, "the accumulated list/map is extended (append/Join with the existing value), never replaced", p.ipos(i))
+		}
+		c.floor(rule, "stores to "+fk.String(), n, 1)
 	}
-	chk("server.serverStream.setHeader", "p:ss.protected.headers", "serverStream.setHeader:append")
-	chk("server.serverStream.SetTrailer", "p:ss.protected.trailers", "serverStream.SetTrailer:append")
-	chk("server.unaryServerTransportStream.setHeaderLocked", "p:sts.headers", "unary.setHeaderLocked:join")
-	chk("server.unaryServerTransportStream.SetTrailer", "p:sts.trailers", "unary.SetTrailer:join")
+	chk(fieldKey{"server.serverStream.protected", "headers"}, "p:ss.protected.headers", "serverStream.headers:append")
+	chk(fieldKey{"server.serverStream.protected", "trailers"}, "p:ss.protected.trailers", "serverStream.trailers:append")
+	chk(fieldKey{"server.unaryServerTransportStream", "headers"}, "p:sts.headers", "unary.headers:join")
+	chk(fieldKey{"server.unaryServerTransportStream", "trailers"}, "p:sts.trailers", "unary.trailers:join")
 }
 
 func joinsExisting(p *Prog, cl *ssa.Call, loc string) bool {
